@@ -260,7 +260,21 @@ func witnesses() map[string]func(*core.Case) {
 			execRawRecv(c, rc)
 		}
 	}
+	listener := func(template, giveUp string) func(*core.Case) {
+		return func(c *core.Case) {
+			lc := &listenCase{Kind: "listener", Template: template, Seed: 1, Carrier: "iq", GiveUp: giveUp, N: 2, Order: []int{0, 1, 2}}
+			c.Sample(lc)
+			execListener(c, lc)
+		}
+	}
 	return map[string]func(*core.Case){
+		// an Expect is cancelled, then the stream it waited for is opened: the
+		// handler sends on the channel nobody receives from any more
+		"stall:ibb.handleOpen:chan-send": listener("expect-gave-up-then-open", "cancel"),
+		// Listener.Close while the handler holds an <open/> for Accept
+		"panic:ibb.handleOpen:closed-chan": listener("close-while-handing-over", ""),
+		// Listener.Close twice
+		"panic:ibb.(*Listener).Close:closed-chan": listener("close-idle", ""),
 		// I1: the smallest lost wake-up
 		"stall:ibb.(*Conn).Read:chan-receive": forced("I1", "iq", 1),
 		"ibb:open:succeeded-after-refusal": func(c *core.Case) {
